@@ -901,6 +901,17 @@ class _Impl:
     model['json_str'] = self.jv_wire(json.loads(s))
     loaded_s = self.attempt(lambda: pg.from_json_str(s, allow_partial=ap))
     model['rt_str'] = {'ok': self.to_wire(loaded_s['ok'])} if 'ok' in loaded_s else loaded_s
+    if case.get('opts'):
+      kw = case['opts']
+      jo = self.attempt(lambda: pg.to_json(v, **kw))
+      lo = self.attempt(lambda: pg.from_json(pg.to_json(v, **kw), allow_partial=ap))
+      so = self.attempt(lambda: pg.from_json_str(pg.to_json_str(v, json_indent=2, **kw), allow_partial=ap))
+      out['opts_model'] = {'json': self.jv_wire(jo['ok']) if 'ok' in jo else jo,
+                           'rt': {'ok': self.to_wire(lo['ok'])} if 'ok' in lo else lo}
+      out['opts_checks'] = {}
+      for name, res in (('opts-obj', lo), ('opts-str', so)):
+        out['opts_checks'][name] = (['raises %s' % res['err']] if 'err' in res
+                                    else self.same(v, res['ok'], self.has_nan(t)))
     out['model'] = model
     nan = self.has_nan(t)
     checks = {}
@@ -1345,7 +1356,10 @@ class C05(Prop):
       if rng.chance(0.12):
         shape = rng.choice(['empty-tuple', 'tuple-marker-list', 'type-key-str', 'type-key-int', 'int-key-prefix'])
         t = inject_reserved(rng, t, shape)
-      yield {'kind': 'codec', 'value': t, 'ap': tree_has(t, lambda x: isinstance(x, dict) and 'm' in x) or rng.chance(0.3)}
+      case = {'kind': 'codec', 'value': t, 'ap': tree_has(t, lambda x: isinstance(x, dict) and 'm' in x) or rng.chance(0.3)}
+      if rng.chance(0.3):
+        case['opts'] = {'hide_frozen': rng.chance(0.5), 'hide_default_values': rng.chance(0.7)}
+      yield case
     for i in range(n_load):
       sf = rng.chance(0.4)
       jg = JsonGen(rng, str_form=sf)
@@ -1418,7 +1432,11 @@ class C05(Prop):
     if k == 'codec':
       if not is_model_tree(case['value']):
         return None
-      return {'op': 'codec', 'env': ENV, 'value': case['value'], 'ap': case['ap']}
+      req = {'op': 'codec', 'env': ENV, 'value': case['value'], 'ap': case['ap']}
+      if case.get('opts'):
+        req['hide_frozen'] = case['opts']['hide_frozen']
+        req['hide_default_values'] = case['opts']['hide_default_values']
+      return req
     if k in ('load', 'load_str'):
       return {'op': k, 'env': ENV, 'json': case['json'], 'ap': case['ap']}
     if k == 'store':
@@ -1464,6 +1482,10 @@ class C05(Prop):
         return 'Encodable true (Lean) and reserved_shapes (harness) disagree'
       if not model_out['conforms']:
         return 'the library built a value the model calls non-conforming'
+      if case.get('opts'):
+        a, b = impl_out['opts_model'], model_out.get('opts')
+        if a != b:
+          return 'options %s: impl=%s model=%s' % (case['opts'], json.dumps(a)[:300], json.dumps(b)[:300])
       return None
     if k in ('load', 'load_str'):
       a, b = impl_out['model']['rt'], model_out['rt']
@@ -1509,6 +1531,11 @@ class C05(Prop):
         return None
       if 'to_json_error' in out:
         return {'signature': 'to_json-raises:' + out['to_json_error'], 'what': 'to_json raises on %s' % json.dumps(case['value'])[:300]}
+      for form, d in sorted((out.get('opts_checks') or {}).items()):
+        if d:
+          shapes = sorted(set(reserved_shapes(case['value'], form == 'opts-str')))
+          sig = 'roundtrip:' + ('+'.join(shapes) if shapes else form + ':' + d[0].split(':')[0])
+          return {'signature': sig, 'what': '%s %s round trip of %s: %s' % (form, case['opts'], json.dumps(case['value'])[:300], '; '.join(d))}
       for form in ('obj', 'str', 'pickle', 'deepcopy'):
         d = out['checks'][form]
         if d:
@@ -1781,6 +1808,8 @@ class C05(Prop):
           h.append('codec:has-' + name)
       if not is_model_tree(t):
         h.append('codec:impl-only')
+      if case.get('opts'):
+        h.append('codec:opts:hide_frozen=%s,hide_default=%s' % (case['opts']['hide_frozen'], case['opts']['hide_default_values']))
       if 'model' in out:
         h.append('codec:rt=' + ('ok' if 'ok' in out['model']['rt'] else out['model']['rt']['err']))
         if not out.get('built_same'):
